@@ -114,8 +114,8 @@ func c16BoundValues() (vs []*big.Rat) {
 
 var c16BoundValueList = c16BoundValues()
 
-// boundaryLeaf: a random boundary value in a random exact representation (all of them, also
-// ratio/long-float for the neighbours).
+// boundaryLeaf: a random boundary value in a random exact representation (also ratio, and
+// long-float when the value is a double, for the neighbours).
 func (g *c16Gen) boundaryLeaf() string {
 	v := c16BoundValueList[g.rng.Intn(len(c16BoundValueList))]
 	if v.Sign() == 0 && c16AvoidNegZero {
@@ -123,7 +123,12 @@ func (g *c16Gen) boundaryLeaf() string {
 	}
 	reps := c16ExactReps(v)
 	if v.IsInt() {
-		reps = append(reps, 'r', 'l')
+		reps = append(reps, 'r')
+		// long-floats only with at most double precision (notes, Limits: the root Equal methods of
+		// LongFloat/Ratio go through float64 for wider ones — observed, see "Seeded mutants, round 4")
+		if _, exact := v.Float64(); exact {
+			reps = append(reps, 'l')
+		}
 	}
 	return g.num(reps[g.rng.Intn(len(reps))], v)
 }
